@@ -484,7 +484,8 @@ impl<R: Read, TSpec> TagIterator<R, TSpec>
     }
 
     fn buffer_master(&mut self, tag_id: u64) {
-        let tag_start = self.current_offset();
+        // The master being buffered was just pushed on the stack: report the offset of its tag, like Start/End do
+        let tag_start = self.tag_stack.last().map(|t| t.tag_start).unwrap_or_else(|| self.current_offset());
         let pre_queue_len = self.emission_queue.len();
 
         let mut position = pre_queue_len;
